@@ -226,9 +226,11 @@ class Instrumented:
 def run_instrumented(cfg, cache_in: dict, script: bytes, env):
     """run_script's composition through the public API with recording objects.
     Returns (status, tape, stack, cache, trace). A case that exhausts the run_tape budget is run once more with 15x the budget."""
+    from . import vmrun
     out = _run_instrumented(cfg, cache_in, script, env, 1)
-    if out[0] == 'ERR:HarnessAbort':
+    if out[0] == 'ERR:HarnessAbort' and vmrun.RUNAWAYS[0] < 3:
         out = _run_instrumented(cfg, cache_in, script, env, 15)
+        if out[0] == 'ERR:HarnessAbort': vmrun.RUNAWAYS[0] += 1
     return out
 
 
